@@ -357,10 +357,11 @@ def extra_blocks(n):
     for units in deep:
         if units:
             blocks.append(('article', ('section',) + units, 'plain', 'default', None, 'XHTML', splits, False))
-    for units in shapes('book', 2 if n <= 2 else 3):
+    for units in shapes('book', 3):
         if len(units) >= 2:
-            blocks.append(('book', units, 'numlast', 'default', None, 'XHTML', [0, 1, 2, 3], False))
-            blocks.append(('book', units, 'numfirst', 'default', None, 'XHTML', [0, 1, 2, 3], False))
+            sp = [0, 1, 2, 3] if (len(units) == 2 or n > 2) else [1, 3]
+            blocks.append(('book', units, 'numlast', 'default', None, 'XHTML', sp, False))
+            blocks.append(('book', units, 'numfirst', 'default', None, 'XHTML', sp, False))
         if 1 <= len(units) <= 2:
             blocks.append(('book', units, 'plain+prexml', 'default', None, 'HTML5', [0, 1, 2], False))
             blocks.append(('book', units, 'rich+prexml', 'idtitle', None, 'XHTML', [1, 2], False))
